@@ -1,7 +1,7 @@
 from .common import TRUSTED_BASE_COMMON
 from . import C06 as _c06
 THEOREMS = [
-    "C08_life_reachable", "C08_life_step", "C08_pending_unique", "C08_published_once_until_start",
+    "C08_life_reachable", "C08_life_step", "C08_unactivated_is_pending", "C08_pending_unique", "C08_published_once_until_start",
     "C08_duplicate_rejected", "C08_publish_ids", "C08_next_id_monotone", "C08_ids_below_next_id",
     "C08_publish_requires_auth_and_funds", "C08_AccOK_snoc", "C08_accepted_deals_are_stored",
     "C08_activation_guard", "C08_activation_at_most_once", "C08_removed_deal_not_activated",
